@@ -32,7 +32,7 @@ func VerifC17VersionValidAt() {
 	vrt.Assert("C17.window.from-inclusive-until-exclusive", got == want)
 }
 
-// verif:harness props=C17 tier=quick native=yes weight=25 shards=4 tshards=8
+// verif:harness props=C17 tier=quick native=yes weight=25
 // verif:bounds 3 secret versions with arbitrary (overlapping, adjacent, equal) windows and distinct symbolic one-byte ids in arbitrary list order; selection mode from {default, newest_valid, oldest_valid, padded mixed-case, unsupported}; arbitrary signing instant
 func VerifC17Select() {
 	const n = 3
@@ -102,7 +102,7 @@ type hSignPath struct{ path, escaped string }
 
 var hSignPaths = []hSignPath{{"", "/"}, {"/hook/v1", "/hook/v1"}, {"/a b", "/a%20b"}, {"/x?y", "/x%3Fy"}, {"/", "/"}, {"/hook/ä", "/hook/%C3%A4"}}
 
-// verif:harness props=C17,C07 tier=quick weight=70 shards=3 tshards=8
+// verif:harness props=C17,C07 tier=quick weight=70
 // verif:bounds body 2 symbolic bytes; URL path from 6 fixed paths (empty, "/", plain, space, '?', non-ASCII), each followed by a query string; clock from 2 fixed instants with sub-second parts (thorough 4); quick uses the first 4 paths; 2 secret versions with arbitrary windows; SHA-256 and HMAC as uninterpreted functions; (*http.Client).Do is a havoc stub
 func VerifC17SignedDelivery() {
 	instants := []time.Time{time.Unix(1, 0), time.Unix(1700000000, 0), time.Unix(1700000000, 999999999), time.Unix(4102444800, 5)}
